@@ -23,17 +23,18 @@ def _k3(limits):
 LIMITS = {
     'server1': {'server': 1},
     'rack1': {'rack': 1},
+    'pod1': {'pod': 1},
     'cell2': {'cell': 2},
     'rack1cell2': {'rack': 1, 'cell': 2},
-    'server1rack2': {'server': 1, 'rack': 2},
+    'server1pod2': {'server': 1, 'pod': 2},
 }
 
 
 def configs(ctx):
     if ctx.quick:
-        return [('K3-' + k, _k3(LIMITS[k]), 5, 0)
-                for k in ('rack1', 'rack1cell2', 'server1')]
-    return [('K3-' + k, _k3(v), 7, 0) for k, v in LIMITS.items()]
+        return [('K3-' + k, _k3(LIMITS[k]), 4, 0)
+                for k in ('rack1', 'pod1', 'cell2', 'server1pod2')]
+    return [('K3-' + k, _k3(v), 6, 0) for k, v in LIMITS.items()]
 
 
 RULE = ('BFS over histories with capacity pressure on a 2x2 cell, affinity '
